@@ -109,16 +109,7 @@ func checkC10(c *Check) {
 	oldEnt := "old(" + ent + ")"
 	// nested form: the scan loop runs inside a loop over a list of entry lists (or of CRLs); the
 	// scan as a whole is then over when the outer loop is
-	outer := ""
-	for _, s := range pg.States {
-		for _, e := range s.Out {
-			for _, l := range e.Labels {
-				if l.Kind == "rangenext" && l.Key != E && strings.HasPrefix(E, "re("+l.Key+")") {
-					outer = l.Key
-				}
-			}
-		}
-	}
+	outer := scanOuterLoop(pg, E)
 	scanTop := E
 	if outer != "" {
 		scanTop = outer
@@ -880,4 +871,20 @@ func listOfListsRules(c *Check, pg *PG, L *Var, O, E, suffix string) {
 	c.noPathFrom(pg, "O-C10.6", "entry list complete before the scan", "the list is not written once the scan has started", start, edgeSources(pg, AnyOf(setBase, addDelta)), nil)
 	c.perIteration(pg, "O-C10.6", "every listed CRL is scanned", "each element of the list is walked by the entry scan", O, AnyOf(RangeNext(E), RangeDone(E)))
 	c.floor("entry list-of-lists write sites", 2, len(distinctEdgeNodes(pg, setBase))+len(distinctEdgeNodes(pg, addDelta)))
+}
+
+// scanOuterLoop: when the entry scan over E runs inside a loop over a list of entry lists (or of
+// CRLs) - E is the element of that loop, or a field of it - the key of that outer loop; else "".
+func scanOuterLoop(pg *PG, E string) string {
+	outer := ""
+	for _, s := range pg.States {
+		for _, e := range s.Out {
+			for _, l := range e.Labels {
+				if l.Kind == "rangenext" && l.Key != E && strings.HasPrefix(E, "re("+l.Key+")") {
+					outer = l.Key
+				}
+			}
+		}
+	}
+	return outer
 }
